@@ -54,6 +54,40 @@ CHECKS = {
                 "reader and writer interleave at operation granularity (a reader's single atomic load of the flushed offset is not split); SC atomics.",
         "technique": "Kani/CBMC bounded model checking of the real seglog Reader/Writer over a symbolic file model, differential against a reference reader",
     },
+    "C08": {
+        "text": "Claimed for the in-memory watermark algorithm (persistence/crash points of the state file are outside): bounded model checking of the verbatim "
+                "PartitionConfirmationState::update_confirmation and AtomicWatermark over every history of up to 4 (quick) / 6 (thorough) confirmation reports "
+                "(any order, duplicates, stale lower counts, any replication factor 1..12, versions 1..4): after every report the watermark is monotone, never "
+                "exceeds and always equals the longest prefix whose best reported count reaches quorum; plus one inductive step from an arbitrary state "
+                "satisfying the representation invariant (no panic, invariant re-established).",
+        "note": TB + "std BTreeMap replaced by an array-backed map with the same API subset (mocks/shimmap; capacity is a stated bound); clock stubbed; bincode derives stripped.",
+        "technique": "Kani/CBMC bounded model checking of the verbatim confirmation-state slice, symbolic report histories + inductive step",
+    },
+    "C12": {
+        "text": "Claimed for the ordered replication buffer (the data structure that decides what a replica applies and when): bounded model checking of the verbatim "
+                "OrderedQueue::{insert,pop,progress_to} - one operation from an ARBITRARY queue state (limit 1..3, sequences < 8) against the statement's case analysis "
+                "(handed out iff key == next, Stale iff below, Conflict iff a different transaction is buffered there, rejected writes leave the buffer unchanged, "
+                "duplicates merged without eviction, eviction only of the greatest sequence for a smaller new one and handed back), and delivery histories of 3..5 "
+                "writes from new(): application strictly in order, each sequence at most once.",
+        "note": TB + "BufferedWrite abstracted to (transaction id, replier count); BTreeMap -> shimmap; the timeout sweep (tokio time), the actor and the database append are outside.",
+        "technique": "Kani/CBMC bounded model checking of the verbatim OrderedQueue, inductive step from arbitrary state + short histories",
+    },
+    "C23": {
+        "text": "Bounded model checking of the verbatim sierradb::id functions over their whole input space: for all 2^16 hashes and ALL clock/random bits the generated id "
+                "yields back its hash and validates only for it; for all 2^128 uuids and both flag values set/get_uuid_flag change only bit 63, keep the hash, are idempotent "
+                "and reversible; an id generated for a key's hash (flagged or not) carries the key's hash (so partition = hash % P and bucket = partition % B agree for every P, B); "
+                "bucket helpers equal pid % B / hash % B and stay in range (B <= 256).",
+        "note": TB + "rand -> mock whose draws are kani::any(); SystemTime::now -> arbitrary instant after the epoch; real uuid crate.",
+        "technique": "Kani/CBMC bounded model checking of the verbatim id functions, full-width symbolic inputs",
+    },
+    "C26": {
+        "text": "Bounded model checking of the verbatim circuit_breaker.rs with atomics and the clock stubbed so that schedules become data: (a) single thread, every sequence "
+                "of 5 (quick) / 7 (thorough) operations with symbolic configuration and clock steps: no panic, Closed->Open only by a failure with >= threshold CONSECUTIVE "
+                "failures, admitted requests per half-open episode <= half_open_max_calls; (b) 2..4 main-thread operations where at EVERY atomic access / clock read up to 1 "
+                "(quick) / 2 (thorough) complete operations of other threads run (properly nested interleavings): no panic/overflow, opens only after threshold failures, probe bound.",
+        "note": TB + "sequentially consistent atomics; only properly nested (LIFO) context switches - other interleavings are outside the claim; clock arbitrary but non-decreasing.",
+        "technique": "Kani/CBMC bounded model checking of the verbatim breaker; interleavings encoded as nondeterministic nested operations at every atomic access",
+    },
 }
 
 _PENDING = "check not built yet in this tree (planned in DESIGN.md §3); not claimed until its harness exists and passes"
